@@ -51,6 +51,51 @@ def to_bits(P, m, t: Ty):
     return z3.Extract(w - 1, 0, m)
 
 
+def _is_arr(t):
+    return getattr(t, "kind", None) == "Arr"
+
+
+def mk_sym(name, t):
+    if _is_arr(t):
+        return [z3.BitVec(f"{name}[{i}]", ty_w(t.elem)) for i in range(t.n)]
+    return z3.BitVec(name, ty_w(t))
+
+
+def obj_to_math(P, bits, t):
+    if _is_arr(t):
+        return [to_math(P, b, t.elem) for b in bits]
+    return to_math(P, bits, t)
+
+
+def obj_to_bits(P, m, t):
+    if _is_arr(t):
+        return [to_bits(P, x, t.elem) for x in m]
+    return to_bits(P, P.const(m) if (P is Z3P and isinstance(m, int) and not isinstance(m, bool)) else m, t)
+
+
+def obj_neq(a, b, t):
+    if _is_arr(t):
+        r = False
+        for x, y in zip(a, b):
+            r = D.b_or(r, D.b_not(D.v_eq(x, y, ty_w(t.elem))))
+        return r
+    return D.b_not(D.v_eq(a, b, ty_w(t)))
+
+
+def obj_model(model, x):
+    if isinstance(x, list):
+        return [obj_model(model, e) for e in x]
+    return _mv(model, x)
+
+
+def obj_default_bits(o):
+    t = o.ty
+    if _is_arr(t):
+        d = o.default if isinstance(o.default, list) else [o.default or 0] * t.n
+        return [x % (1 << ty_w(t.elem)) for x in d]
+    return o.default % (1 << ty_w(t))
+
+
 class VModel:
     """locates R's objects inside the elaborated VHDL"""
 
@@ -97,15 +142,20 @@ class VModel:
 
     def get(self, sim, n):
         l = self.loc[n]
-        return sim.sig[l[1]].x if l[0] == "sig" else sim.var[(l[1], l[2])].x
+        v = sim.sig[l[1]] if l[0] == "sig" else sim.var[(l[1], l[2])]
+        if isinstance(v.x, list):
+            return [e.x for e in v.x]
+        return v.x
 
     def put(self, sim, n, bits):
         l = self.loc[n]
+        t = sim.sig_t[l[1]] if l[0] == "sig" else sim.var[(l[1], l[2])].t
+        val = V(t, [V(t.elem, b) for b in bits]) if isinstance(bits, list) else V(t, bits)
         if l[0] == "sig":
-            sim.sig[l[1]] = V(sim.sig_t[l[1]], bits)
-            sim.prev[l[1]] = sim.sig[l[1]]
+            sim.sig[l[1]] = val
+            sim.prev[l[1]] = val
         else:
-            sim.var[(l[1], l[2])] = V(sim.var[(l[1], l[2])].t, bits)
+            sim.var[(l[1], l[2])] = val
 
     # ---- clocking helpers
     def levels(self):
@@ -155,7 +205,7 @@ def pair_induction(stats, prog: SeqProgram, lib, ref: RefProc, vm: VModel, timeo
         pc, k = work.pop(0)
         res.pairs.append((pc, k))
         sim = VS.Sim(lib, arbitrary_state=True, tag=f"!{pc}!{k}")
-        dsym = {n: z3.BitVec(f"D!{n}", ty_w(prog.objs[n].ty)) for n in names}
+        dsym = {n: mk_sym(f"D!{n}", prog.objs[n].ty) for n in names}
         isym = {n: z3.BitVec(f"I!{n}", ty_w(prog.objs[n].ty)) for n in ins}
         for n in names:
             vm.put(sim, n, dsym[n])
@@ -165,7 +215,7 @@ def pair_induction(stats, prog: SeqProgram, lib, ref: RefProc, vm: VModel, timeo
         vm.start(sim, {**zero_in, **_reset_inactive(prog)})
         # combinational copies may have moved; registers must still hold the chosen pre-state
         vm.clock(sim, {**{n: isym[n] for n in ins}, **_reset_inactive(prog)})
-        env = {n: to_math(Z3P, dsym[n], prog.objs[n].ty) for n in names}
+        env = {n: obj_to_math(Z3P, dsym[n], prog.objs[n].ty) for n in names}
         for n in prog.meta.get("unused", ()):
             env[n] = prog.objs[n].default or 0
         inputs = {n: to_math(Z3P, isym[n], prog.objs[n].ty) for n in ins}
@@ -178,7 +228,7 @@ def pair_induction(stats, prog: SeqProgram, lib, ref: RefProc, vm: VModel, timeo
         diffs = []
         for n in names:
             t = prog.objs[n].ty
-            diffs.append(D.b_not(D.v_eq(vm.get(sim, n), to_bits(Z3P, env2[n], t), ty_w(t))))
+            diffs.append(obj_neq(vm.get(sim, n), obj_to_bits(Z3P, env2[n], t), t))
         neq = False
         for d in diffs:
             neq = D.b_or(neq, d)
@@ -190,7 +240,9 @@ def pair_induction(stats, prog: SeqProgram, lib, ref: RefProc, vm: VModel, timeo
         if r == "sat":
             res.notes.append(f"induction step fails at pair ({pc},{k})")
             res.closed = False
-            res.step_cex = {"pair": (pc, k), "data": {n: model.eval(dsym[n], model_completion=True).as_long() for n in names},
+            res.step_cex = {"pair": (pc, k), "data": {n: obj_model(model, dsym[n]) for n in names},
+                            "after_V": {n: obj_model(model, vm.get(sim, n)) for n in names},
+                            "after_R": {n: obj_model(model, obj_to_bits(Z3P, env2[n], prog.objs[n].ty)) for n in names},
                             "inputs": {n: model.eval(isym[n], model_completion=True).as_long() for n in ins}}
             return res
         if r == "unknown":
@@ -235,9 +287,8 @@ def _expected_after_reset(prog, ref, names, dsym):
     want = {}
     for n in names:
         o = prog.objs[n]
-        w = ty_w(o.ty)
         if o.default is not None and not o.noreset and n in written:
-            want[n] = o.default % (1 << w)
+            want[n] = obj_default_bits(o)
         else:
             want[n] = dsym[n]
     for n, val in prog.meta.get("on_reset", []):
@@ -261,7 +312,7 @@ def reset_check(stats, prog: SeqProgram, lib, ref: RefProc, vm: VModel, pairs, t
 
     def fresh_sim(tag, pc, k):
         sim = VS.Sim(lib, arbitrary_state=True, tag=tag)
-        dsym = {n: z3.BitVec(f"D!{n}", ty_w(prog.objs[n].ty)) for n in names}
+        dsym = {n: mk_sym(f"D!{n}", prog.objs[n].ty) for n in names}
         for n in names:
             vm.put(sim, n, dsym[n])
         if vm.state_sig:
@@ -275,7 +326,7 @@ def reset_check(stats, prog: SeqProgram, lib, ref: RefProc, vm: VModel, pairs, t
     def differs(sim, want, state_k):
         bad = False
         for n in names:
-            bad = D.b_or(bad, D.b_not(D.v_eq(vm.get(sim, n), want[n], ty_w(prog.objs[n].ty))))
+            bad = D.b_or(bad, obj_neq(vm.get(sim, n), want[n], prog.objs[n].ty))
         if vm.state_sig and state_k is not None:
             bad = D.b_or(bad, D.b_not(D.v_eq(sim.sig[vm.state_sig].x, state_k, vm.state_t.width)))
         return bad
@@ -284,8 +335,8 @@ def reset_check(stats, prog: SeqProgram, lib, ref: RefProc, vm: VModel, pairs, t
         r, model = check_sat(stats, sim.constraints + [bad], timeout_ms)
         if r == "sat":
             out.append({"kind": "reset", "scenario": scenario, "pair": (pc, k),
-                        "data": {n: _mv(model, dsym[n]) for n in names},
-                        "after": {n: _mv(model, vm.get(sim, n)) for n in names},
+                        "data": {n: obj_model(model, dsym[n]) for n in names},
+                        "after": {n: obj_model(model, vm.get(sim, n)) for n in names},
                         "state_after": _mv(model, sim.sig[vm.state_sig].x) if vm.state_sig else None})
         elif r == "unknown":
             out.append({"kind": "inconclusive", "scenario": scenario, "pair": (pc, k)})
@@ -322,6 +373,84 @@ def reset_check(stats, prog: SeqProgram, lib, ref: RefProc, vm: VModel, pairs, t
     return out
 
 
+def noninterference(stats, prog: SeqProgram, lib, vm: VModel, pairs, timeout_ms=20000):
+    """C08 (2-safety): two runs of one activation from the same control state, the same contents of
+    every declared object and the same inputs, but DIFFERENT arbitrary contents of everything else
+    the emitted process keeps (compiler temporaries), must agree on every declared object and on
+    the next control state.  -> list of dicts (sat = an output depends on a stale intermediate)"""
+    out = []
+    names = state_objs(prog)
+    ins = input_objs(prog)
+    for pc, k in pairs:
+        sims = []
+        dsym = {n: mk_sym(f"D!{n}", prog.objs[n].ty) for n in names}
+        isym = {n: z3.BitVec(f"I!{n}", ty_w(prog.objs[n].ty)) for n in ins}
+        if prog.reset is not None:
+            isym[prog.reset] = 1 - prog.reset_active
+        for tag in ("!A", "!B"):
+            sim = VS.Sim(lib, arbitrary_state=True, tag=f"{tag}!{pc}!{k}")
+            for n in names:
+                vm.put(sim, n, dsym[n])
+            if vm.state_sig:
+                sim.sig[vm.state_sig] = V(vm.state_t, k)
+            vm.start(sim, {**{n: 0 for n in ins}, **_reset_inactive(prog)})
+            vm.clock(sim, dict(isym))
+            sims.append(sim)
+        a, b = sims
+        diff = False
+        for n in names:
+            diff = D.b_or(diff, obj_neq(vm.get(a, n), vm.get(b, n), prog.objs[n].ty))
+        if vm.state_sig:
+            diff = D.b_or(diff, D.b_not(D.v_eq(a.sig[vm.state_sig].x, b.sig[vm.state_sig].x, vm.state_t.width)))
+        r, model = check_sat(stats, a.constraints + b.constraints + [diff], timeout_ms)
+        if r == "sat":
+            stale = {}
+            for key, va in a.init_syms.items():
+                vb = b.init_syms.get(key)
+                if vb is None:
+                    continue
+                xa, xb = obj_model(model, va.x if not isinstance(va.x, list) else [e.x for e in va.x]), obj_model(model, vb.x if not isinstance(vb.x, list) else [e.x for e in vb.x])
+                if xa != xb:
+                    stale[key] = (xa, xb)
+            out.append({"kind": "stale", "pair": (pc, k), "data": {n: obj_model(model, dsym[n]) for n in names},
+                        "inputs": {n: _mv(model, isym[n]) for n in ins},
+                        "stale_contents": stale,
+                        "after_A": {n: obj_model(model, vm.get(a, n)) for n in names},
+                        "after_B": {n: obj_model(model, vm.get(b, n)) for n in names}})
+        elif r == "unknown":
+            out.append({"kind": "inconclusive", "pair": (pc, k)})
+    return out
+
+
+def replay_stale(prog, lib, vm, finding):
+    """concrete confirmation: run the activation twice with the two stale valuations"""
+    names = state_objs(prog)
+    ins = input_objs(prog)
+    res = []
+    for which in (0, 1):
+        sim = VS.Sim(lib, uninit="zero")
+        for key, pair in finding["stale_contents"].items():
+            val = pair[which]
+            kind, rest = key.split("!", 1)
+            if kind == "s0" and rest in sim.sig:
+                sim.sig[rest] = V(sim.sig_t[rest], _to_payload(val, sim.sig_t[rest]))
+                sim.prev[rest] = sim.sig[rest]
+            elif kind == "v0":
+                pname, vn = rest.rsplit("!", 1)
+                for fp in sim.procs:
+                    if fp.info is not None and fp.name == pname and (fp.pid, vn) in sim.var:
+                        t = sim.var[(fp.pid, vn)].t
+                        sim.var[(fp.pid, vn)] = V(t, _to_payload(val, t))
+        for n in names:
+            vm.put(sim, n, finding["data"][n])
+        if vm.state_sig:
+            sim.sig[vm.state_sig] = V(vm.state_t, finding["pair"][1])
+        vm.start(sim, {**{n: 0 for n in ins}, **_reset_inactive(prog)})
+        vm.clock(sim, dict(finding["inputs"]))
+        res.append({n: vm.get(sim, n) for n in names})
+    return res[0] != res[1], res
+
+
 def _mv(model, x):
     if D.is_c(x):
         return x
@@ -339,7 +468,11 @@ def bmc(stats, prog: SeqProgram, lib, ref: RefProc, vm: VModel, K: int, timeout_
     zero_in = {n: 0 for n in ins}
     vm.start(sim, {**zero_in, **_reset_inactive(prog)})
     P = Z3P
-    env = {n: P.const(v) for n, v in ref.initial_env(P).items()}
+    env = {n: ([P.const(x) for x in v] if isinstance(v, list) else P.const(v)) for n, v in ref.initial_env(P).items()}
+    for n in names:
+        if prog.objs[n].default is None:
+            # no declared initial value: arbitrary at power-up, the same arbitrary pattern on both sides
+            env[n] = obj_to_math(P, vm.get(sim, n), prog.objs[n].ty)
     pcg = {START: True}
     written = ref.written()
     trace_syms = []
@@ -368,7 +501,9 @@ def bmc(stats, prog: SeqProgram, lib, ref: RefProc, vm: VModel, K: int, timeout_
             for n in names:
                 o = prog.objs[n]
                 if o.default is not None and not o.noreset and n in written:
-                    renv[n] = P.const(o.default)
+                    renv[n] = obj_to_math(P, obj_default_bits(o), o.ty) if _is_arr(o.ty) else P.const(o.default)
+            for n, val in prog.meta.get("on_reset", []):
+                renv[n] = P.const(val)
             cand = [(z3.And(z3.Not(rst), g) if g is not True else z3.Not(rst), pc2, e) for g, pc2, e in cand]
             cand.append((rst, START, renv))
         elif prog.reset is not None:
@@ -379,13 +514,16 @@ def bmc(stats, prog: SeqProgram, lib, ref: RefProc, vm: VModel, K: int, timeout_
         for n in names:
             val = cand[-1][2][n]
             for g, pc2, e in reversed(cand[:-1]):
-                val = P.ite(g, e[n], val) if not (isinstance(val, int) and isinstance(e[n], int) and val == e[n]) else val
+                if isinstance(val, list):
+                    val = [P.ite(g, x, y) for x, y in zip(e[n], val)]
+                else:
+                    val = P.ite(g, e[n], val) if not (isinstance(val, int) and isinstance(e[n], int) and val == e[n]) else val
             new_env[n] = val
         env, pcg = new_env, new_pcg
         diff = False
         for n in names:
             t = prog.objs[n].ty
-            diff = D.b_or(diff, D.b_not(D.v_eq(vm.get(sim, n), to_bits(P, P.const(env[n]) if isinstance(env[n], int) else env[n], t), ty_w(t))))
+            diff = D.b_or(diff, obj_neq(vm.get(sim, n), obj_to_bits(P, env[n], t), t))
         for c, m, w, tm in sim.obligations[n_oblig:] + []:
             diff = D.b_or(diff, c)
         n_oblig = len(sim.obligations)
@@ -446,6 +584,8 @@ def replay_trace(prog: SeqProgram, lib, ref: RefProc, vm: VModel, trace, init):
                 o = prog.objs[n]
                 if o.default is not None and not o.noreset and n in written:
                     env[n] = o.default
+            for n, val in prog.meta.get("on_reset", []):
+                env[n] = val
             pc = START
         else:
             paths = ref.activate(PyP, pc, env, inputs)
